@@ -367,3 +367,26 @@ Theorem C12_history_after_rebootstrap : forall g s0 before cp b now max_age stri
   trust_inv g (store_of_bootstrap b) (run_wire g (store_of_bootstrap b) msgs).
 Proof. exact history_after_rebootstrap. Qed.
 Print Assumptions C12_history_after_rebootstrap.
+
+(* ================================================================== relevance, for all values *)
+Theorem C12_irrelevant_update_is_rejected : forall s u now genesis fv bits,
+  get_bits (u_bits u) = Ok bits -> bits <> 0 ->
+  u_sigslot u <= now -> h_slot (u_attested u) < u_sigslot u -> fin_slot_or_0 u <= h_slot (u_attested u) ->
+  period_fits s u ->
+  h_slot (u_attested u) <= h_slot (s_fin s) ->
+  ~ (s_next s = None /\ u_next u <> None /\
+     calc_sync_period (h_slot (u_attested u)) = calc_sync_period (h_slot (s_fin s))) ->
+  verify s u now genesis fv = Err E_NOT_RELEVANT.
+Proof. exact verify_rejects_irrelevant. Qed.
+Print Assumptions C12_irrelevant_update_is_rejected.
+
+(* the honest closing update of the previous period (attested in its last slot, signed in the first slot of the store's
+   period): never relevant for a store finalized in the current period, whatever it carries *)
+Theorem C12_closing_update_of_previous_period_rejected : forall s u now genesis fv bits,
+  get_bits (u_bits u) = Ok bits -> bits <> 0 -> u_sigslot u <= now ->
+  fin_slot_or_0 u <= h_slot (u_attested u) ->
+  let p := calc_sync_period (h_slot (s_fin s)) in
+  1 <= p -> u_sigslot u = p * 8192 -> h_slot (u_attested u) = p * 8192 - 1 ->
+  verify s u now genesis fv = Err E_NOT_RELEVANT.
+Proof. exact closing_update_of_previous_period_rejected. Qed.
+Print Assumptions C12_closing_update_of_previous_period_rejected.
